@@ -43,6 +43,10 @@ def run(ctx):
     r18_4(ctx, rep, roles, fn)
     r18_5(ctx, rep, roles, model)
     r18_6(ctx, rep, roles, model)
+    # R18.3 relies on the removed-member memory being filled for every removed member
+    from . import c12
+    c12.r12_5(ctx, rep, roles)
+    ctx.report.rules[-1].id = "R18.3b(R12.5)"
 
 
 class Model:
